@@ -40,6 +40,7 @@ static uint32_t    SyncId, SyncCycle, EmcyId;
 static uint8_t     HistNum; static uint32_t Hist[8];
 static CO_EMCY_TBL EmcyTbl[CO_EMCY_N];
 /* PDO communication / mapping parameters (all referenced so that they can be inspected) */
+static uint8_t     H8;
 static uint32_t    RpCob[4], TpCob[4], RpMap[4][8], TpMap[4][8];
 static uint8_t     RpType[4], TpType[4], RpNum[4], TpNum[4];
 static uint16_t    TpInh[4], TpEvt[4];
@@ -175,6 +176,7 @@ static void nc_prepare(void)
     for (i = 0; i < 20; i++) DomData[i] = (uint8_t)(0x60 + i);
     DomObj.Offset = 0; DomObj.Size = 20; DomObj.Start = DomData;
     od_add(&b, CO_KEY(0x2130, 0, CO_OBJ_____RW), CO_TDOMAIN, (CO_DATA)&DomObj);
+    H8 = 0xC8; od_add(&b, CO_KEY(0xF100, 0, CO_OBJ____PRW), CO_TUNSIGNED8, (CO_DATA)&H8);      /* a mappable object more than 8000h indices above the communication objects */
     od_add(&b, CO_KEY(0x2120, 0, CO_OBJ_____RW), CO_TUNSIGNED32, (CO_DATA)&N32);
     od_add(&b, CO_KEY(0x2121, 0, CO_OBJ____PR_), CO_TUNSIGNED32, (CO_DATA)&R32);
     od_add(&b, CO_KEY(0x2122, 0, CO_OBJ____P_W), CO_TUNSIGNED32, (CO_DATA)&W32);
@@ -183,7 +185,7 @@ static void nc_prepare(void)
     W_REG(Node); W_REG(OD); W_REG(ErrReg); W_REG(SdoBuf); W_REG(TMem); W_REG(HbTime); W_REG(HbcNum); W_REG(Hbc);
     W_REG(SyncId); W_REG(SyncCycle); W_REG(EmcyId); W_REG(HistNum); W_REG(Hist);
     W_REG(RpCob); W_REG(TpCob); W_REG(RpMap); W_REG(TpMap); W_REG(RpType); W_REG(TpType); W_REG(RpNum); W_REG(TpNum); W_REG(TpInh); W_REG(TpEvt);
-    W_REG(A8); W_REG(P8); W_REG(B8); W_REG(A16); W_REG(P16); W_REG(W16); W_REG(A32); W_REG(P32); W_REG(N32); W_REG(R32); W_REG(W32);
+    W_REG(H8); W_REG(A8); W_REG(P8); W_REG(B8); W_REG(A16); W_REG(P16); W_REG(W16); W_REG(A32); W_REG(P32); W_REG(N32); W_REG(R32); W_REG(W32);
     W_REG(NcPara); W_REG(HbDefault); W_REG(CsdoCobTx); W_REG(CsdoCobRx); W_REG(CsdoNode); W_REG(Csdo2CobTx); W_REG(Csdo2CobRx); W_REG(Csdo2Node); W_REG(SsdoRx); W_REG(SsdoTx); W_REG(DomData); W_REG(DomObj);
     for (i = 0; i < CO_SSDO_N; i++) w_nohash_range(&Node.Sdo[i].Frm, sizeof Node.Sdo[i].Frm);
     /* these harnesses only use expedited transfers: the server is idle between steps and the multiplexer / abort
@@ -210,6 +212,8 @@ static void nc_nmt(uint8_t cs, uint8_t target) { uint8_t d[2] = { cs, target }; 
 static uint32_t nc_sdo_write(uint16_t idx, uint8_t sub, uint32_t val, int len)
 {
     int first = OBS.ntx; uint32_t id = 0x580 + Node.NodeId;
+    /* the bytes of an expedited download that carry no data (n of them) are not zero: CiA 301 reserves them, a server must not look at them */
+    if (len < 4) val = (val & (0xFFFFFFFFu >> (8 * (4 - len)))) | (0xC35AA500u << (8 * (len - 1)));
     w_rx8(&Node, 0x600 + Node.NodeId, (uint8_t)(0x23 | ((4 - len) << 2)), (uint8_t)idx, (uint8_t)(idx >> 8), sub, (uint8_t)val, (uint8_t)(val >> 8), (uint8_t)(val >> 16), (uint8_t)(val >> 24));
     for (int i = first; i < OBS.ntx && i < W_MAX_TX; i++) if (OBS.tx[i].id == id) {
         if (OBS.tx[i].d[0] == 0x60) return 0;
